@@ -6,12 +6,10 @@
    Every theorem is about the entry points of model/RadixApi.v at the parameters extracted from
    /repo's current source ([radix]).  Text is a list of bytes.
 
-   `_partial` theorems carry the premise [small_or_umul u] :=
-       zlen u < 64  \/  umul_spec_statement
-   i.e. they are unconditional for operands below the 64-digit big-base threshold; for
-   operands of >= 64 digits they are relative to the specification of `&BigUint * &BigUint`
-   (umul_spec, property C02, not yet proved in area `mul`).  The full statement is the same
-   without that premise; once umul_spec exists it is discharged by [or_intror umul_spec]. *)
+   The output-side theorems (to_radix_*, to_str_radix, the formatters, the round trips) go through
+   `&BigUint * &BigUint` for operands of >= 64 digits (big-base path); its specification is
+   MulProofs5.umul_spec (property C02), applied through [small_or_umul_holds] (proofs/RadixInst.v).
+   No premise other than canonicity and the documented radix range is left. *)
 From BigNum Require Import Base BaseLemmas AddSub Mul MulProofs Div SpecBytes BytesLemmas
   Radix RadixText RadixKernels RadixApi SpecRadix
   RadixProofs RadixProofs2 RadixProofs3 RadixTextProofs RadixInst Extracted InstRadix.
@@ -68,84 +66,84 @@ Print Assumptions C06_parse_bytes.
 
 (** ** integer → digit vectors: the unique little-endian expansion without a high zero
     ([0] for zero), radix 2..=256 (all power-of-two widths included) *)
-Theorem C06_to_radix_le_partial : forall u r, small_or_umul u -> 2 <= r <= 256 -> canon u ->
+Theorem C06_to_radix_le : forall u r, 2 <= r <= 256 -> canon u ->
   u_to_radix_le radix u r = Ret (spec_to_radix_le (val u) r).
-Proof. intros. apply inst_to_radix_le; auto using radix_params_std. Qed.
-Print Assumptions C06_to_radix_le_partial.
-Theorem C06_to_radix_be_partial : forall u r, small_or_umul u -> 2 <= r <= 256 -> canon u ->
+Proof. intros. apply inst_to_radix_le; auto using radix_params_std, small_or_umul_holds. Qed.
+Print Assumptions C06_to_radix_le.
+Theorem C06_to_radix_be : forall u r, 2 <= r <= 256 -> canon u ->
   u_to_radix_be radix u r = Ret (spec_to_radix_be (val u) r).
-Proof. intros. apply inst_to_radix_be; auto using radix_params_std. Qed.
-Print Assumptions C06_to_radix_be_partial.
-Theorem C06_ito_radix_le_partial : forall x r, small_or_umul (mag x) -> 2 <= r <= 256 -> icanon x ->
+Proof. intros. apply inst_to_radix_be; auto using radix_params_std, small_or_umul_holds. Qed.
+Print Assumptions C06_to_radix_be.
+Theorem C06_ito_radix_le : forall x r, 2 <= r <= 256 -> icanon x ->
   i_to_radix_le radix x r = Ret (sg x, spec_to_radix_le (val (mag x)) r).
 Proof.
-  intros x r H Hr Cx. unfold i_to_radix_le, ito_radix_le.
+  intros x r Hr Cx. unfold i_to_radix_le, ito_radix_le.
   change (to_radix_le (k_mul radix) (k_divrem radix) (k_divdig radix) (k_to_bits radix) (k_to_inexact radix) radix (mag x) r)
     with (u_to_radix_le radix (mag x) r).
-  rewrite C06_to_radix_le_partial by (auto; apply Cx). reflexivity.
+  rewrite C06_to_radix_le by (auto; apply Cx). reflexivity.
 Qed.
-Print Assumptions C06_ito_radix_le_partial.
+Print Assumptions C06_ito_radix_le.
 
 (** ** integer → text: '-' for negatives, no leading zeros, lower-case digits, radix 2..=36;
     outside ⇒ panic *)
-Theorem C06_to_str_partial : forall u r, small_or_umul u -> canon u ->
+Theorem C06_to_str : forall u r, canon u ->
   u_to_str_radix radix u r = spec_to_str (val u) r.
-Proof. intros. apply inst_to_str_radix; auto using radix_params_std. Qed.
-Print Assumptions C06_to_str_partial.
-Theorem C06_ito_str_partial : forall x r, small_or_umul (mag x) -> icanon x ->
+Proof. intros. apply inst_to_str_radix; auto using radix_params_std, small_or_umul_holds. Qed.
+Print Assumptions C06_to_str.
+Theorem C06_ito_str : forall x r, icanon x ->
   i_to_str_radix radix x r = spec_to_str (ival x) r.
-Proof. intros. apply inst_ito_str_radix; auto using radix_params_std. Qed.
-Print Assumptions C06_ito_str_partial.
+Proof. intros. apply inst_ito_str_radix; auto using radix_params_std, small_or_umul_holds. Qed.
+Print Assumptions C06_ito_str.
 
 (** every emitted byte is in '0'..'9' ∪ 'a'..'z' ∪ {'-'} (the `from_utf8_unchecked` clause of C15) *)
 Theorem C06_to_str_ascii_spec : forall z r s, spec_to_str z r = Ret s -> Forall ascii_out s.
 Proof. exact to_str_ascii. Qed.
 Print Assumptions C06_to_str_ascii_spec.
-Theorem C06_to_str_ascii_partial : forall x r s, small_or_umul (mag x) -> icanon x ->
+Theorem C06_to_str_ascii : forall x r s, icanon x ->
   i_to_str_radix radix x r = Ret s -> Forall ascii_out s.
-Proof. intros x r s H Cx E. rewrite C06_ito_str_partial in E by auto. eapply to_str_ascii; eauto. Qed.
-Print Assumptions C06_to_str_ascii_partial.
+Proof. intros x r s Cx E. rewrite C06_ito_str in E by auto. eapply to_str_ascii; eauto. Qed.
+Print Assumptions C06_to_str_ascii.
 
 (** ** the five formatters = pad_integral (std, modelled) applied to the positional text of |z| *)
-Theorem C06_fmt_u_partial : forall k fl u, small_or_umul u -> canon u ->
+Theorem C06_fmt_u : forall k fl u, canon u ->
   u_fmt radix k fl u = spec_fmt k fl (val u).
-Proof. intros. apply inst_fmt_u; auto using radix_params_std. Qed.
-Print Assumptions C06_fmt_u_partial.
-Theorem C06_fmt_i_partial : forall k fl x, small_or_umul (mag x) -> icanon x ->
+Proof. intros. apply inst_fmt_u; auto using radix_params_std, small_or_umul_holds. Qed.
+Print Assumptions C06_fmt_u.
+Theorem C06_fmt_i : forall k fl x, icanon x ->
   i_fmt radix k fl x = spec_fmt k fl (ival x).
-Proof. intros. apply inst_fmt_i; auto using radix_params_std. Qed.
-Print Assumptions C06_fmt_i_partial.
+Proof. intros. apply inst_fmt_i; auto using radix_params_std, small_or_umul_holds. Qed.
+Print Assumptions C06_fmt_i.
 
 (** ** parsing any emitted text / digit vector returns the original value *)
 Theorem C06_str_roundtrip_spec : forall signed z r s, 2 <= r <= 36 -> (signed = true \/ 0 <= z) ->
   spec_to_str z r = Ret s -> spec_from_str signed s r = Ret (POk z).
 Proof. exact spec_str_roundtrip. Qed.
 Print Assumptions C06_str_roundtrip_spec.
-Theorem C06_roundtrip_partial : forall u r, small_or_umul u -> 2 <= r <= 36 -> canon u ->
+Theorem C06_roundtrip : forall u r, 2 <= r <= 36 -> canon u ->
   (do s <- u_to_str_radix radix u r; u_from_str_radix radix s r) = Ret (POk u).
-Proof. intros. apply inst_rt_str; auto using radix_params_std. Qed.
-Print Assumptions C06_roundtrip_partial.
-Theorem C06_iroundtrip_partial : forall x r, small_or_umul (mag x) -> 2 <= r <= 36 -> icanon x ->
+Proof. intros. apply inst_rt_str; auto using radix_params_std, small_or_umul_holds. Qed.
+Print Assumptions C06_roundtrip.
+Theorem C06_iroundtrip : forall x r, 2 <= r <= 36 -> icanon x ->
   (do s <- i_to_str_radix radix x r; i_from_str_radix radix s r) = Ret (POk x).
-Proof. intros. apply inst_irt_str; auto using radix_params_std. Qed.
-Print Assumptions C06_iroundtrip_partial.
-Theorem C06_radix_roundtrip_partial : forall u r, small_or_umul u -> 2 <= r <= 256 -> canon u ->
+Proof. intros. apply inst_irt_str; auto using radix_params_std, small_or_umul_holds. Qed.
+Print Assumptions C06_iroundtrip.
+Theorem C06_radix_roundtrip : forall u r, 2 <= r <= 256 -> canon u ->
   (do d <- u_to_radix_le radix u r; u_from_radix_le radix d r) = Ret (Some u) /\
   (do d <- u_to_radix_be radix u r; u_from_radix_be radix d r) = Ret (Some u).
 Proof.
-  intros; split; [apply inst_rt_radix_le|apply inst_rt_radix_be]; auto using radix_params_std.
+  intros; split; [apply inst_rt_radix_le|apply inst_rt_radix_be]; auto using radix_params_std, small_or_umul_holds.
 Qed.
-Print Assumptions C06_radix_roundtrip_partial.
+Print Assumptions C06_radix_roundtrip.
 
 (** ** internal routines (hook level) *)
 Theorem C06_from_radix_digits_be : forall v r, 3 <= r < 256 -> rpow2 r = false -> v <> [] -> inb r v ->
   u_from_radix_digits_be radix v r = Ret (enc (be_value r v)).
 Proof. intros. apply inst_from_radix_digits_be; auto using radix_params_std. Qed.
 Print Assumptions C06_from_radix_digits_be.
-Theorem C06_to_radix_digits_le_partial : forall u r, small_or_umul u -> 3 <= r < 256 -> rpow2 r = false ->
+Theorem C06_to_radix_digits_le : forall u r, 3 <= r < 256 -> rpow2 r = false ->
   canon u -> u <> [] -> u_to_radix_digits_le radix u r = Ret (le_digits r (val u)).
-Proof. intros. apply inst_to_radix_digits_le; auto using radix_params_std. Qed.
-Print Assumptions C06_to_radix_digits_le_partial.
+Proof. intros. apply inst_to_radix_digits_le; auto using radix_params_std, small_or_umul_holds. Qed.
+Print Assumptions C06_to_radix_digits_le.
 
 (* Non-vacuity: canonical multi-digit values, a non-power-of-two radix, an inexact power of two,
    a sign, an underscore; the hypotheses of the theorems above are satisfiable. *)
